@@ -317,6 +317,28 @@ pub fn run(run: &Run) {
                 ),
             }
         }
+        // a refusal leaves nothing behind: right after it, on the same thread, every
+        // representable depth still reads back (this thread has by now refused many
+        // descriptors, one after the other)
+        for good_layers in [1usize, 16, 30, 31, 32] {
+            let gl: Vec<bool> = (0..good_layers).map(|k| (k + i as usize) % 3 == 0).collect();
+            let gtext = type_json_text("Bytes", &gl);
+            l.evals += 1;
+            match guard(|| serde_json::from_str::<Type>(&gtext).map_err(|e| e.to_string())) {
+                Ok(Ok(t)) if serde_json::to_string(&t).unwrap_or_default() == gtext => l.count("valid_type_after_refusals"),
+                other => {
+                    run.violation(
+                        "C15/valid-type-refused-after-earlier-refusals",
+                        "type-round-trip",
+                        "types-too-deep",
+                        i,
+                        json!({"layers": good_layers, "json_prefix": &gtext[..60.min(gtext.len())],
+                               "outcome": format!("{:?}", other.map(|r| r.map(|_| "a different type")))}),
+                    );
+                    break;
+                }
+            }
+        }
         // the same descriptor as a field type inside a scheme document
         let sdoc = format!("{{\"f\":{{\"type\":{},\"optional\":false}}}}", text);
         l.evals += 1;
@@ -356,6 +378,19 @@ pub fn run(run: &Run) {
         for _ in 0..nfields {
             let name = name_pool(&mut r);
             if names.contains(&name) {
+                // a redefinition is refused and leaves the builder as it was: the
+                // serialised scheme below must still be exactly `desc`
+                let t2 = build_type(&PRIMS[r.below(4)], r.below(4), r.next());
+                let refused = if r.bool() {
+                    b.add_optional_field(&name, t2.to_engine()).is_err()
+                } else {
+                    b.add_field(&name, t2.to_engine()).is_err()
+                } && b.add_function(&name, wirefilter::ConcatFunction::new()).is_err();
+                if !refused {
+                    run.violation("C15/redefinition-accepted-by-the-builder", "scheme-round-trip", "schemes", i, json!({"name": name}));
+                    return;
+                }
+                l.count("refused_redefinitions_before_serialising");
                 continue;
             }
             let len = r.below(4);
